@@ -22,7 +22,7 @@ c11_shape!(q, q, t, V_I16, 5);
 c11_shape!(q, t, q, V_I32, 5);
 c11_shape!(q, q, t, V_I64, 5);
 c11_shape!(q, t, t, V_DOUBLE, 5);
-c11_shape!(q, q, q, V_UUID, 5);
+c11_shape!(q, q, q, V_UUID, 17);
 c11_shape!(q, q, q, V_BINARY2, 5);
 c11_shape!(t, t, t, V_BINARY0, 5);
 c11_shape!(q, q, t, V_LIST_I32_2, 5);
